@@ -1,6 +1,7 @@
 import PdtVerif.Lemmas.FeatStats
 import PdtVerif.Lemmas.FeatStatsDeltaLayout
 import PdtVerif.Lemmas.FeatStatsMvnLayout
+import PdtVerif.Lemmas.FeatStatsMachine
 /-!
 # C18 — normalisation statistics, deltas and returns equal their defining formulas
 
@@ -600,6 +601,227 @@ theorem C18_forward_layout (x : Tensor) (dim : Nat) (hdim : dim < x.shape.length
       = mvnSpec x dim (mean?.getD ((columns x dim).map mean)) (std?.getD sq) eps :=
   meanVarNorm_layout x _ dim rfl hdim mean? std? sq eps hmu hsd
 
+/-! ## `mean_var_norm` with every combination of supplied / omitted statistics -/
+
+/-- **C18_forward_combinations.**  For each of the four combinations (`mean?`, `std?` given or
+`none`) and every coefficient `i`: the mean in use is the supplied one, else the input's OWN
+mean; the variance whose (trusted) square root `sq[i]` stands in for an omitted `std` is the
+input's OWN biased variance `(1/n) Σ (x − x̄)²` — whatever mean was supplied (the code takes the
+deviation of the already centred input; centring with any constant does not change it); and the
+output column is `(x − mean[i]) / max(std[i], eps)` with those two. -/
+theorem C18_forward_combinations (cols : List (List Rat)) (mean? std? : Option (List Rat))
+    (sq : List Rat) (eps : Rat) (i : Nat) (hi : i < cols.length)
+    (hm : ∀ m, mean? = some m → i < m.length) (hs : i < (std?.getD sq).length) :
+    (meanVarNormCols cols mean? std? sq eps).1.getD i 0
+      = statUsed mean? (poolMean (cols.getD i [])) i ∧
+    (meanVarNormCols cols mean? std? sq eps).2.1.getD i 0 = poolVar (cols.getD i []) ∧
+    (meanVarNormCols cols mean? std? sq eps).2.2.getD i []
+      = normCol (cols.getD i []) (statUsed mean? (poolMean (cols.getD i [])) i)
+          (statUsed std? (sq.getD i 0) i) eps := by
+  have hm' : i < (mean?.getD (cols.map mean)).length := by
+    cases mean? with
+    | none => simpa using hi
+    | some m => simpa using hm m rfl
+  have hmu : (mean?.getD (cols.map mean)).getD i 0 = statUsed mean? (poolMean (cols.getD i [])) i := by
+    cases mean? with
+    | none => simp [statUsed, List.getD_eq_getElem?_getD, List.getElem?_eq_getElem hi, mean_eq_poolMean]
+    | some m => rfl
+  have hsd : (std?.getD sq).getD i 0 = statUsed std? (sq.getD i 0) i := by
+    cases std? <;> rfl
+  refine ⟨?_, meanVarNormCols_var cols mean? std? sq eps i hi hm', ?_⟩
+  · rw [meanVarNormCols_mean, hmu]
+  · rw [meanVarNormCols_ys cols mean? std? sq eps i hi hm' hs, hmu, hsd]
+
+/-- **Mean supplied, std omitted.**  A column centred with ANY supplied mean `m` and scaled with
+`s`, `s² =` the column's own variance `> 0` (clamp inactive), has variance 1 and mean
+`(x̄ − m) / s`: unit variance does not need the supplied mean to be the own mean. -/
+theorem C18_forward_mean_only (col : List Rat) (m s eps : Rat) (hpos : 0 < poolVar col)
+    (hs : s * s = poolVar col) (he : eps ≤ s) :
+    poolVar (normCol col m s eps) = 1 ∧
+    poolMean (normCol col m s eps) = (poolMean col - m) / s := by
+  have hn : 0 < col.length := by
+    rcases Nat.eq_zero_or_pos col.length with h0 | h0
+    · have : col = [] := List.length_eq_zero_iff.mp h0
+      subst this
+      simp [poolVar] at hpos
+    · exact h0
+  obtain ⟨n1, n2⟩ := C18_normalized col s eps hpos hs he
+  have hl : 0 < (normCol col (poolMean col) s eps).length := by rw [length_normCol]; exact hn
+  rw [normCol_recentre col m (poolMean col) s eps]
+  refine ⟨by rw [poolVar_shift _ _ hl, n2], ?_⟩
+  rw [poolMean_shift _ _ hl, n1, max_eq_left he]
+  ring
+
+/-- **Std supplied, mean omitted.**  A column centred with its own mean has mean 0 whatever
+deviation and `eps` it is divided by. -/
+theorem C18_forward_std_only (col : List Rat) (s eps : Rat) :
+    poolMean (normCol col (poolMean col) s eps) = 0 := by
+  unfold poolMean normCol
+  rw [sum_sub_div]
+  rcases Nat.eq_zero_or_pos col.length with h0 | h0
+  · have : col = [] := List.length_eq_zero_iff.mp h0
+    subst this
+    simp
+  · have hn' : (col.length : Rat) ≠ 0 := by exact_mod_cast (Nat.pos_iff_ne_zero.mp h0)
+    have : col.sum - col.length * (col.sum / col.length) = 0 := by field_simp; ring
+    rw [this]; simp
+
+/-! ## The module as a state machine -/
+
+/-- **C18_machine.**  Start from a module whose buffers hold the chunks `pend` (`[]`: no buffers) and
+whose statistics are `cur` (`none`, or whatever was passed to the constructor).  After ANY sequence
+of `accumulate` / `store(delete_stats, bessel)` calls — stores that raise included, the caller
+carrying on — the buffers are exactly the totals of `pendingSpec pend ops` (everything accumulated
+since the last `store(delete_stats=True)` that did not raise; no buffers iff that list is empty)
+and the statistics are `statsSpec pend cur ops` (the pooled mean / variance of what was pending at
+the last `store` that did not raise, else `cur`). -/
+theorem C18_machine (X : Nat) (ops : List MvnOp) (pend : List (List (List Rat)))
+    (cur : Option (List Rat × List Rat)) (hp : ChunksOK X pend) (ho : OpsOK X ops) :
+    mvnRun ⟨accumulateAllCols pend, cur⟩ ops
+      = ⟨accumulateAllCols (pendingSpec pend ops), statsSpec pend cur ops⟩ :=
+  mvnRun_spec X ops pend cur hp ho
+
+/-- **One `store` call.**  It raises iff nothing is pending or fewer frames than the estimate needs,
+and then leaves buffers and statistics untouched; otherwise it overwrites the statistics with the
+pooled ones, keeps the buffers as they are under `delete_stats=False` and drops them otherwise. -/
+theorem C18_machine_store (X : Nat) (pend : List (List (List Rat)))
+    (cur : Option (List Rat × List Rat)) (del bessel : Bool) (hp : ChunksOK X pend) :
+    mvnStep ⟨accumulateAllCols pend, cur⟩ (.store del bessel)
+      = if storeOk pend bessel then
+          (⟨if del then none else accumulateAllCols pend, some (pooledStats pend bessel)⟩, false)
+        else (⟨accumulateAllCols pend, cur⟩, true) := by
+  simp only [mvnStep]
+  rw [store_accumulateAllCols pend X bessel hp]
+  by_cases hso : storeOk pend bessel = true <;> simp [hso]
+
+/-- **Entry level.**  When the pending chunks are the columns of tensors `xs` (one rank, `X`
+coefficients along `dim`), the statistics a successful `store` writes are, for every coefficient
+`i`, the pooled mean and (biased / Bessel) variance of exactly the entries of all pending tensors
+whose `dim`-th coordinate is `i` (`pool`: any rearrangement of them). -/
+theorem C18_machine_entries (dim : Nat) (x : Tensor) (xs : List Tensor) (X : Nat) (bessel : Bool)
+    (hdim : ∀ y ∈ x :: xs, dim < y.shape.length) (hX : ∀ y ∈ x :: xs, y.shape.getD dim 1 = X)
+    (i : Nat) (hi : i < X) (pool : List Rat)
+    (hp : pool.Perm ((x :: xs).flatMap (fun y => coeffEntries y dim i))) :
+    (pooledStats ((x :: xs).map (fun y => columns y dim)) bessel).1.getD i 0 = poolMean pool ∧
+    (pooledStats ((x :: xs).map (fun y => columns y dim)) bessel).2.getD i 0
+      = (if bessel then poolVarBessel pool else poolVar pool) := by
+  have hperm : pool.Perm (poolOf ((x :: xs).map (fun y => columns y dim)) i) := by
+    refine hp.trans ?_
+    unfold poolOf
+    rw [List.flatMap_map]
+    apply List.Perm.flatMap_left
+    intro y hy
+    exact (C18_columns_entries y dim (hdim y hy) i (by rw [hX y hy]; exact hi)).symm
+  have hh : i < (((x :: xs).map (fun y => columns y dim)).headD []).length := by
+    simp only [List.map_cons, List.headD_cons, columns_length]
+    rw [hX x (by simp)]; exact hi
+  obtain ⟨p1, p2⟩ := pooledStats_getD _ bessel i hh
+  rw [p1, p2, poolMean_perm hperm, poolVar_perm hperm, poolVarBessel_perm hperm]
+  exact ⟨rfl, rfl⟩
+
+/-! ## The directory command: one set of statistics per group -/
+
+/-- **C18_cli_groups.**  When `compute-mvn-stats-for-torch-feat-data-dir` writes a dictionary, its
+entries are exactly: for every group id `g` of the group table (the ids named by `--id2gid`, or
+the single group `None` without it) that has at least one file, the result of `store(bessel)`
+on the buffers of the history "the files of group `g`, in directory order" — i.e. of
+`accumulateAllCols` over that group's files only (`groupFiles`: the files whose id the map sends
+to `g`).  Groups without a file are left out (`store` on no buffers is `none`). -/
+theorem C18_cli_groups (m : Option (List (String × String)))
+    (files : List (String × List (List Rat))) (bessel : Bool)
+    (l : List (Option String × (List Rat × List Rat)))
+    (h : cliStats m files bessel = .wrote l) (g : Option String) (st : List Rat × List Rat) :
+    (g, st) ∈ l ↔ g ∈ (cliTable m).map (·.1) ∧
+      store (accumulateAllCols ((groupFiles m files g).map (·.2))) bessel = some st := by
+  unfold cliStats at h
+  split at h
+  · cases hl : cliLoop m (cliTable m) files with
+    | none => rw [hl] at h; simp at h
+    | some t =>
+      rw [hl] at h
+      simp only at h
+      rw [cliFinish_wrote bessel t l h g st, cliLoop_spec m files _ t hl]
+      constructor
+      · rintro ⟨a, ha, hs⟩
+        obtain ⟨p, hp, hpe⟩ := List.mem_map.mp ha
+        simp only [Prod.mk.injEq] at hpe
+        obtain ⟨rfl, hf⟩ := hpe
+        rw [cliTable_snd m p hp, foldl_accumulate_files] at hf
+        exact ⟨List.mem_map.mpr ⟨p, hp, rfl⟩, by rw [hf]; exact hs⟩
+      · rintro ⟨hg, hs⟩
+        obtain ⟨p, hp, rfl⟩ := List.mem_map.mp hg
+        cases ha : accumulateAllCols ((groupFiles m files p.1).map (·.2)) with
+        | none => rw [ha] at hs; simp [store] at hs
+        | some a =>
+          refine ⟨a, List.mem_map.mpr ⟨p, hp, ?_⟩, by rw [← ha]; exact hs⟩
+          rw [cliTable_snd m p hp, foldl_accumulate_files, ha]
+  · simp at h
+
+/-- **C18_cli_group_stats** (composition with `C18_accumulate_store`).  The statistics written for a
+group are the pooled statistics of the union of its files: for every coefficient `i` the mean
+and the (biased / `--bessel`) variance of ALL frames of all files of the group, and of no other
+file. -/
+theorem C18_cli_group_stats (m : Option (List (String × String)))
+    (files : List (String × List (List Rat))) (bessel : Bool)
+    (l : List (Option String × (List Rat × List Rat)))
+    (h : cliStats m files bessel = .wrote l) (g : Option String) (st : List Rat × List Rat)
+    (hg : (g, st) ∈ l) (X : Nat) (hok : ChunksOK X ((groupFiles m files g).map (·.2)))
+    (i : Nat) (hi : i < X) (pool : List Rat)
+    (hp : pool.Perm (poolOf ((groupFiles m files g).map (·.2)) i)) :
+    st.1.getD i 0 = poolMean pool ∧
+    st.2.getD i 0 = (if bessel then poolVarBessel pool else poolVar pool) := by
+  obtain ⟨_, hs⟩ := (C18_cli_groups m files bessel l h g st).mp hg
+  exact C18_accumulate_store _ X bessel st.1 st.2 (fun c hc => (hok c hc).1)
+    (fun c hc => (hok c hc).2) hs i hi pool hp
+
+/-- **Exit status 1** (nothing written) exactly for: an id listed twice in the map, a feature file
+whose id the map does not list, or no `--id2gid` and no feature file at all. -/
+theorem C18_cli_exit1 (m : Option (List (String × String)))
+    (files : List (String × List (List Rat))) (bessel : Bool) :
+    cliStats m files bessel = .exit1 ↔
+      (cliMapOk m = false ∨ (∃ f ∈ files, cliLookup m f.1 = none) ∨ (m = none ∧ files = [])) := by
+  unfold cliStats
+  by_cases hok : cliMapOk m = true
+  · simp only [hok, if_true]
+    cases hl : cliLoop m (cliTable m) files with
+    | none =>
+      have := (cliLoop_none m files _).mp hl
+      simp [this]
+    | some t =>
+      have hno : ¬ ∃ f ∈ files, cliLookup m f.1 = none := by
+        intro hex
+        have := (cliLoop_none m files (cliTable m)).mpr hex
+        rw [hl] at this; simp at this
+      simp only [hno, false_or, Bool.true_eq_false]
+      have ht := cliLoop_spec m files _ t hl
+      cases m with
+      | none =>
+        simp only [cliTable, List.map_cons, List.map_nil] at ht
+        subst ht
+        cases files with
+        | nil => simp [groupFiles, cliFinish]
+        | cons f rest =>
+          have hgf : groupFiles none (f :: rest) none = f :: rest := by
+            simp [groupFiles, cliLookup]
+          rw [hgf, foldl_accumulate_files]
+          obtain ⟨a, ha⟩ := accumulateAllCols_cons f.2 (rest.map (·.2))
+          rw [List.map_cons, ha]
+          simp only [cliFinish]
+          cases store (some a) bessel <;> simp
+      | some tbl =>
+        constructor
+        · intro hx
+          have hmem := cliFinish_exit1 bessel t hx
+          rw [ht] at hmem
+          obtain ⟨p, hp, hpe⟩ := List.mem_map.mp hmem
+          simp only [cliTable, List.mem_map] at hp
+          obtain ⟨g', hg', rfl⟩ := hp
+          obtain ⟨q, _, rfl⟩ := List.mem_map.mp (List.mem_eraseDups.mp hg')
+          simp at hpe
+        · simp
+  · have hok' : cliMapOk m = false := by simpa using hok
+    simp [hok']
+
 /-! ## Non-vacuity: the hypotheses are satisfiable on concrete inputs -/
 
 -- two chunks (2 frames + 1 frame) of 2 coefficients; the pool of coefficient 0 in another order
@@ -651,6 +873,42 @@ example : columns ⟨[2, 2, 2], [1, 2, 3, 4, 5, 6, 7, 8]⟩ 2 = [[1, 5, 3, 7], [
     coeffEntries ⟨[2, 2, 2], [1, 2, 3, 4, 5, 6, 7, 8]⟩ 2 1 = [2, 4, 6, 8] := by decide +kernel
 example : (meanVarNorm ⟨[2, 2], [1, 2, 5, 4]⟩ 1 (some [3, 3]) (some [2, 1]) [] 0).2.2
     = ⟨[2, 2], [-1, -1, 1, 1]⟩ ∧ mvnSpec ⟨[2, 2], [1, 2, 5, 4]⟩ 1 [3, 3] [2, 1] 0 = ⟨[2, 2], [-1, -1, 1, 1]⟩ := by
+  decide +kernel
+
+-- mean supplied (0, not the own mean 3), std omitted: the variance handed to sqrt is the own 4 (not the
+-- mean square 13 of the centred input); with sqrt 4 = 2 the output is (x - 0) / 2
+example : meanVarNormCols [[1, 5, 1, 5]] (some [0]) none [2] 0 = ([0], [4], [[1 / 2, 5 / 2, 1 / 2, 5 / 2]]) ∧
+    poolVar [1 / 2, 5 / 2, 1 / 2, 5 / 2] = 1 ∧ poolMean [1 / 2, 5 / 2, 1 / 2, 5 / 2] = (3 - 0) / 2 := by
+  decide +kernel
+-- std supplied, mean omitted
+example : meanVarNormCols [[1, 5, 1, 5]] none (some [4]) [] 0 = ([3], [4], [[-1 / 2, 1 / 2, -1 / 2, 1 / 2]]) := by
+  decide +kernel
+-- the state machine: accumulate, keeping store, accumulate, deleting Bessel store, a store that raises
+example : mvnRun ⟨none, none⟩ [.accumulate [[1, 3]], .store false false, .accumulate [[5]], .store true true,
+      .store true false]
+    = ⟨none, some ([3], [4])⟩ ∧
+    (mvnStep ⟨none, some ([3], [4])⟩ (.store true false)).2 = true ∧
+    mvnRun ⟨none, none⟩ [.accumulate [[1, 3]], .store false false, .accumulate [[5]]]
+      = ⟨some ⟨3, [9], [35]⟩, some ([2], [1])⟩ ∧
+    pendingSpec [] [.accumulate [[1, 3]], .store false false, .accumulate [[5]]] = [[[1, 3]], [[5]]] := by
+  decide +kernel
+example : OpsOK 1 [.accumulate [[1, 3]], .store false false, .accumulate [[5]]] := by
+  intro c hc
+  simp at hc
+  rcases hc with rfl | rfl
+  · refine ⟨rfl, fun i hi => ?_⟩
+    have : i = 0 := by omega
+    subst this; rfl
+  · refine ⟨rfl, fun i hi => ?_⟩
+    have : i = 0 := by omega
+    subst this; rfl
+-- the command: three files in two groups, a group without a file is left out; an unlisted file: exit 1
+example : cliStats (some [("a", "g1"), ("b", "g2"), ("c", "g1"), ("z", "g3")])
+      [("a", [[1, 3]]), ("b", [[7]]), ("c", [[5]])] false
+    = .wrote [(some "g1", ([3], [8 / 3])), (some "g2", ([7], [0]))] ∧
+    cliStats (some [("a", "g1")]) [("a", [[1, 3]]), ("b", [[7]])] false = .exit1 ∧
+    cliStats none [("a", [[1, 3]]), ("b", [[5]])] true = .wrote [(none, ([3], [4]))] ∧
+    cliStats none [] false = .exit1 ∧ cliStats none [("a", [[1]])] true = .raised := by
   decide +kernel
 
 end PdtVerif.FeatStats
